@@ -225,9 +225,9 @@ struct GenStats {
 };
 
 // History kinds
-enum Kind { K_NONE, K_ONE, K_BEFORE, K_BETWEEN, K_AFTER, K_FAT, K_ODD, K_LEGACY_A, K_LEGACY_B, K_NKINDS };
+enum Kind { K_NONE, K_ONE, K_BEFORE, K_BETWEEN, K_AFTER, K_FAT, K_ODD, K_LEGACY_A, K_LEGACY_B, K_DSTFIRST, K_NKINDS };
 inline const char* kind_name(int k) {
-  static const char* n[] = {"none", "one", "seam-before", "seam-between", "seam-after", "fat-bigbang", "oddities", "legacy-dst-type0-first", "legacy-dst-type0-later"};
+  static const char* n[] = {"none", "one", "seam-before", "seam-between", "seam-after", "fat-bigbang", "oddities", "legacy-dst-type0-first", "legacy-dst-type0-later", "first-period-is-dst"};
   return n[k];
 }
 
@@ -424,6 +424,26 @@ inline bool build_zone(const Footer& f, int kind, int version, GenZone* out, Gen
       if (kind == K_LEGACY_A) { push(t, D0); t += YEAR / 2; push(t, S1); }
       else { push(t, S1); t += YEAR / 2; push(t, D0); t += YEAR / 2; push(t, S1); }
       t += YEAR; push(t, D0); t += YEAR / 2; push(t, S1);
+      if (has_rule) {
+        auto ev = rule_events(1990, 1992);
+        if (ev.empty()) { push(t + YEAR, regime(t + YEAR)); break; }
+        push(t + YEAR, regime(ev.front().first - 1));
+        for (auto& e : ev) push(static_cast<long long>(e.first), rtype(e.second));
+      } else {
+        push(t + YEAR, TType{S, false, SA});
+      }
+      break;
+    }
+    case K_DSTFIRST: {
+      // what current zic writes for a zone whose FIRST period is daylight time: type 0 has isdst=1
+      // and no transition refers to it; it governs all instants before the first transition
+      T.clear();
+      TType D0{S + 3600 < 86400 ? S + 3600 : S - 3600, true, "ODT"};
+      type_index(D0);  // type 0, never referenced below
+      long long t = T_LMT;
+      push(t, TType{S, false, "OST"});
+      t += YEAR; push(t, TType{D0.off, true, "OD2"});   // a different DST type (other abbreviation)
+      t += YEAR / 2; push(t, TType{S, false, "OST"});
       if (has_rule) {
         auto ev = rule_events(1990, 1992);
         if (ev.empty()) { push(t + YEAR, regime(t + YEAR)); break; }
